@@ -112,8 +112,12 @@ func rootsOf(f *ssa.Function, v ssa.Value, seen map[ssa.Value]bool) rootset {
 			return res
 		}
 		callee := x.Call.StaticCallee()
+		if callee != nil && callee.Pkg != nil && callee.Pkg.Pkg.Path() == "sync" && callee.Name() == "Get" {
+			res[shared] = true // (*sync.Pool).Get hands out memory other goroutines have used and will use
+			return res
+		}
 		if callee == nil || callee.Pkg == nil || !strings.HasPrefix(callee.Pkg.Pkg.Path(), mod) {
-			return res // external callee: result assumed fresh (see DESIGN.md, trusted base)
+			return res // any other external callee: result assumed fresh (see DESIGN.md, trusted base)
 		}
 		for _, a := range x.Call.Args {
 			res.add(rootsOf(f, a, seen))
@@ -121,6 +125,13 @@ func rootsOf(f *ssa.Function, v ssa.Value, seen map[ssa.Value]bool) rootset {
 	}
 	return res
 }
+
+// methods of other modules' types that write to their receiver
+var mutatingExternal = map[string]bool{"Write": true, "WriteByte": true, "WriteString": true, "WriteRune": true, "WriteTo": false,
+	"Reset": true, "Truncate": true, "Grow": true, "ReadFrom": true, "Put": true, "Store": true, "Swap": true, "Add": true,
+	"CompareAndSwap": true, "Delete": true, "LoadOrStore": true, "Sum": false}
+
+func isPointer(t types.Type) bool { _, ok := t.Underlying().(*types.Pointer); return ok }
 
 func pointerish(t types.Type) bool {
 	switch u := t.Underlying().(type) {
@@ -262,6 +273,14 @@ func main() {
 						continue
 					}
 					callee := cc.StaticCallee()
+					// a mutating method of another module's type (bytes.Buffer, hash.Hash, strings.Builder,
+					// sync.Pool ...) called on a receiver that may be shared
+					if callee != nil && !inMod(callee) && callee.Signature.Recv() != nil && isPointer(callee.Signature.Recv().Type()) && len(cc.Args) > 0 && mutatingExternal[callee.Name()] {
+						add("extcall", roots(cc.Args[0]))
+					}
+					if cc.IsInvoke() && mutatingExternal[cc.Method.Name()] {
+						add("extcall", roots(cc.Value))
+					}
 					if callee != nil && callee.Pkg != nil && (callee.Pkg.Pkg.Path() == "sort" || callee.Pkg.Pkg.Path() == "slices") {
 						rs := rootset{}
 						for _, a := range cc.Args {
